@@ -100,6 +100,9 @@ func (w *World) newInterp(s *Solver, opts *ExploreOpts) *Interp {
 		tags:        map[string]string{},
 		spec:        defaultSpec(),
 		refine:      map[string][2]*big.Int{},
+		dom:         map[string]*smallDom{},
+		entangled:   map[string]bool{},
+		varsMemo:    map[string][]string{},
 		Stats:       &RunStats{},
 	}
 	in.Cfg.Tier = opts.Tier
@@ -194,8 +197,13 @@ func (in *Interp) RunPath(fn *ssa.Function, prefix []int) (res PathResult) {
 				res.End, res.Msg = e.Kind, e.Msg
 			case goPanic:
 				res.End, res.Msg = "panic", e.Msg
-				_, model := in.query()
-				in.Events = append(in.Events, Event{Kind: "panic", Msg: e.Msg, Where: e.Where, Stack: e.Stack, Model: model})
+				r, model := in.query()
+				if r == Unsat {
+					// the path was only kept by an over-approximate feasibility answer
+					res.End, res.Msg = "infeasible", "path condition unsatisfiable"
+				} else {
+					in.Events = append(in.Events, Event{Kind: "panic", Msg: e.Msg, Where: e.Where, Stack: e.Stack, Model: model})
+				}
 			default:
 				res.End = "internal"
 				res.Msg = fmt.Sprintf("%v\n%s", r, debug.Stack())
